@@ -355,6 +355,37 @@ func scenarioC16(r *Run) {
 		}
 		r.Count("forward_direct")
 		r.NonTriv = true
+		// "direct first" holds for every local connection, not only for the first ones a listener serves: in
+		// half of these runs more connections are made 6-120 s later, with the forward address still reachable
+		if !c.Chance(1, 2, "later-direct-connections") {
+			return
+		}
+		for _, lc := range conns {
+			lc.App.Do(Op{Kind: "close"})
+		}
+		r.RunFor(time.Duration(6+c.Pick(115, "later-direct-s")) * time.Second)
+		connsL := mk(k, 1+c.Pick(2, "later-direct-n"))
+		csL := NewConnSet(r, w, "app", connsL)
+		csL.Cross = true
+		csL.KeySpan = 16
+		extraL := func() []Ev { return append(csL.OpenEv(nil), csL.PeerEvents()...) }
+		out = r.Drive(pol, settled(csL, connsL, expectTarget), extraL, allow+30*time.Second, allow+10*time.Minute)
+		if out == Aborted {
+			return
+		}
+		for i, lc := range connsL {
+			if !csL.Complete(lc, false) || lc.Tp == nil || lc.TpTarget != expectTarget {
+				r.FailSig("forward-not-first", sig+" later", "%s: a while after the first direct connections, local connection %d was not connected to the forward address although it is reachable: %v", out, i, csL.Describe())
+				return
+			}
+		}
+		for _, e := range entries {
+			if dials(e) > 0 {
+				r.FailSig("forward-not-first", sig+" later", "the forward address was reachable but upstream %s:%s was contacted for a later connection", e.Kind, e.Health)
+				return
+			}
+		}
+		r.Count("forward_direct_later")
 		return
 	}
 	if firstOK >= 0 {
